@@ -5,8 +5,8 @@
 (* Every complete behaviour's linearization order is written out as a      *)
 (* forced schedule for the real registry.                                  *)
 (***************************************************************************)
-EXTENDS Registry, Json, CSV
-CONSTANTS GenFile, ProgSet
+EXTENDS Registry, Json, CSV, SequencesExt
+CONSTANTS GenFile, LogFile, ProgSet
 
 \* the programs (chosen in the cfg through ProgSet)
 R(n, d) == [op |-> "register", name |-> n, d |-> d]
@@ -20,9 +20,27 @@ MCProg ==
 MCProcs == {1, 2, 3}
 MCBuiltins == ("b" :> "db")
 
-View == <<reg, lock, pc, ip, results, order>>
+View == <<reg, lock, pc, ip, results, order, clk, iv>>
 EmitDone == GenFile = "" \/ ~AllDone' \/ AllDone
             \/ CSVWrite("%1$s", <<ToJson([procs |-> [p \in 1..3 |-> MCProg[p]], order |-> order'])>>, GenFile)
 
-Inv == MutualExclusion /\ Linearizable /\ LookupSound /\ FinalState /\ ListingComplete
+\* ... and the same behaviour as an observer outside the lock logs it: a call line and a return line per
+\* operation, in clock order -- the input format of RegistryTrace.tla, which must accept every one of them
+AllOps == {<<p, i>> : p \in MCProcs, i \in 1..2}
+LogLine(x, ret) ==
+  LET o == MCProg[x[1]][x[2]]
+      base == [ev |-> IF ret THEN "ret" ELSE "call", op |-> o.op, g |-> x[1],
+               name |-> IF "name" \in DOMAIN o THEN o.name ELSE "", t |-> IF ret THEN iv'[x[1]][x[2]].e ELSE iv'[x[1]][x[2]].s]
+  IN IF ~ret THEN (IF o.op = "register" THEN base @@ [did |-> o.d] ELSE base)
+     ELSE CASE o.op = "named" -> base @@ [res |-> results'[x[1]][x[2]]]
+            [] o.op = "list"  -> base @@ [res |-> SetToSeq(results'[x[1]][x[2]]), sorted |-> 1]
+            [] OTHER -> base
+Stamps == {iv'[x[1]][x[2]].s : x \in AllOps} \cup {iv'[x[1]][x[2]].e : x \in AllOps}
+LineAt(t) == LET x == CHOOSE y \in AllOps : iv'[y[1]][y[2]].s = t \/ iv'[y[1]][y[2]].e = t
+             IN LogLine(x, iv'[x[1]][x[2]].e = t)
+ModelLog == <<[ev |-> "init", names |-> <<<<"b", "db">>>>, early |-> <<>>]>> \o
+            [k \in 1..Cardinality(Stamps) |-> LineAt(k)]
+EmitLog == LogFile = "" \/ ~AllDone' \/ AllDone \/ CSVWrite("%1$s", <<ToJson(ModelLog)>>, LogFile)
+
+Inv == MutualExclusion /\ Linearizable /\ LookupSound /\ FinalState /\ ListingComplete /\ Regular
 =============================================================================
